@@ -8,6 +8,8 @@ PROPERTIES = {
         "bounded_native": [
             {"unit": "b_c04_integer_set_expression", "functions": "TryFrom<&Constraint> for PerVisibleRangeConstraints (per_visible.rs): the extensible flag handed to Rasn::int_type_token for components",
              "bound": "same expressions as under C04, each with/without an extension marker after the element set"},
+            {"unit": "b_c04_constraint_parser", "functions": "lexer::constraint::constraints -> element_set_specs, set_operation, union_mark, intersection_mark, value_range, single_value (nom combinators)",
+             "bound": "expressions a | a op b | a op b op c over operands {5, -3, 0..10, MIN..7, -1..MAX}, operators spelled {|, UNION, ^, INTERSECTION, EXCEPT}, with/without trailing extension marker (exhaustive, 6510 cases); source text generated and parsed by the real parser"},
             {"unit": "b_c06_int_type_serial", "functions": "Integer::int_type (intermediate/types.rs): fold of Constraint::integer_constraints with IntegerType::max_restrictive over serially applied constraints",
              "bound": "1..=2 serial range constraints with ends from {-129,-128,0,10,255,256,65535,70000}, each with/without inner and outer extension marker, non-empty intersection (exhaustive, 14160 cases)"},
         ],
@@ -57,6 +59,8 @@ PROPERTIES.update({
         "bounded_native": [
             {"unit": "b_generate_enumerated", "functions": "Backend::generate_module -> generate_enumerated -> format_enum_members (generator/rasn)",
              "bound": "1..=4 enumerals drawn from {alpha, with-hyphen, move, type, b2, loop} with positive/negative numbers, extension marker absent or at any index (exhaustive, 108 cases); checks the generated token text"},
+            {"unit": "b_module_header_parser", "functions": "lexer::module_header::module_header -> environments (nom combinators)",
+             "bound": "header with/without OID, with/without encoding instructions, TAGS clause {none, AUTOMATIC, IMPLICIT, EXPLICIT}, with/without EXTENSIBILITY IMPLIED (exhaustive, 32 cases); a header without TAGS clause is not asserted (parsed as IMPLICIT, pinned by unit tests)"},
             {"unit": "b_sequence_parser", "functions": "lexer::sequence::sequence -> sequence_component / extension_group (nom combinators)",
              "bound": "0..=2 root components, optional marker, 0..=3 additions each a plain component or a [[ ]] group of 1..=2 components with/without version number (exhaustive, 471 cases); source text generated and parsed by the real parser"},
             {"unit": "b_generate_constructed", "functions": "Backend::generate_module -> generate_tld -> generate_sequence_or_set / generate_choice -> format_sequence_or_set_members, format_choice_options, format_sequence_member, format_tag, join_annotations (generator/rasn: quote!/TokenStream code)",
@@ -97,6 +101,8 @@ PROPERTIES.update({
              "bound": "IR built directly: module default {AUTOMATIC, IMPLICIT, EXPLICIT} x EXTENSIBILITY IMPLIED on/off x {SEQUENCE, SET, CHOICE} x 1..=3 BOOLEAN components (each OPTIONAL or not, tagged or not) x extension marker absent or at any index 0..=n, followed by a second module with its own extensibility default on the same backend (exhaustive product, 10248 cases); checks the generated token text"},
             {"unit": "b_resolve_class_reference_frame", "functions": "ASN1Type::resolve_class_reference (validator/linking/mod.rs)",
              "bound": "SEQUENCE / SET / CHOICE with 1..=3 BOOLEAN components, each untagged / IMPLICIT-tagged / EXPLICIT-tagged, extension marker absent or at any index (exhaustive)"},
+            {"unit": "b_module_header_parser", "functions": "lexer::module_header::module_header -> environments (nom combinators)",
+             "bound": "header with/without OID, with/without encoding instructions, TAGS clause {none, AUTOMATIC, IMPLICIT, EXPLICIT}, with/without EXTENSIBILITY IMPLIED (exhaustive, 32 cases); a header without TAGS clause is not asserted (parsed as IMPLICIT, pinned by unit tests)"},
             {"unit": "b_c03_element_tag", "functions": "Rasn::generate_sequence_or_set_of (generator/rasn/builder.rs), via Backend::generate_module",
              "bound": "module default x {SEQUENCE OF, SET OF} x {type assignment, SEQUENCE component} x element {BOOLEAN, type reference} x element tag present/absent (exhaustive, 48 cases)"},
             {"unit": "b_c03_apply_tagenv_lists", "functions": "ToplevelDefinition::apply_tagging_environment (intermediate/mod.rs)",
@@ -116,6 +122,12 @@ PROPERTIES.update({
         "bounded_native": [
             {"unit": "b_c04_component_bounds", "functions": "Rasn::format_member_or_option -> constraints_and_type_name, format_range_annotations (generator/rasn/utils.rs), via Backend::generate_module",
              "bound": "one component typed INTEGER or by a type reference, in SEQUENCE and CHOICE, range ends {-5,0,3,MIN} x {5,MAX}, with/without extension marker (exhaustive, 56 cases); checks the emitted value(..) annotation"},
+            {"unit": "b_c04_constraint_parser", "functions": "lexer::constraint::constraints -> element_set_specs, set_operation, union_mark, intersection_mark, value_range, single_value (nom combinators)",
+             "bound": "expressions a | a op b | a op b op c over operands {5, -3, 0..10, MIN..7, -1..MAX}, operators spelled {|, UNION, ^, INTERSECTION, EXCEPT}, with/without trailing extension marker (exhaustive, 6510 cases); source text generated and parsed by the real parser"},
+            {"unit": "b_c04_named_number_via_reference", "functions": "ToplevelDefinition::link_constraint_reference -> ASN1Type::link_constraint_reference (ElsewhereDeclaredType arm) -> Constraint::link_cross_reference",
+             "bound": "three INTEGER types declaring the same named number with different values, constraint (0..top) on a reference to each of them, as type assignment and as SEQUENCE component, the constrained definition sorting before/between/after them (exhaustive, 18 cases)"},
+            {"unit": "b_c04_string_component_size", "functions": "Rasn::format_member_or_option (per-type list of known-multiplier strings) -> format_range_annotations, via Backend::generate_module",
+             "bound": "one component of each of 8 character string types x {SEQUENCE, CHOICE} x SIZE(2) / SIZE(2..4) x with/without marker (exhaustive, 64 cases)"},
             {"unit": "b_c04_named_number_lookup", "functions": "find_tld_or_enum_value_by_name (validator/linking/utils.rs) -> ToplevelDefinition::get_distinguished_or_enum_value",
              "bound": "2..=3 INTEGER / ENUMERATED definitions that may declare the same identifier with different numbers, every choice of governing type (exhaustive, 224 cases)"},
             {"unit": "b_c04_value_references", "functions": "ToplevelDefinition::has_constraint_reference -> ASN1Type::contains_constraint_reference -> Constraint/ElementOrSetOperation/SubtypeElements::has_cross_reference, and ToplevelDefinition::link_constraint_reference (validator/linking)",
@@ -137,6 +149,12 @@ PROPERTIES.update({
         "bounded_native": [
             {"unit": "b_c07_struct_value_defaults", "functions": "ASN1Value::link_with_type (SequenceOrSet arm) -> link_struct_like (validator/linking/mod.rs)",
              "bound": "SEQUENCE of 1..=3 BOOLEAN components, each with/without DEFAULT, each written or omitted in the value, written in source or reverse order (exhaustive, 78 cases)"},
+            {"unit": "b_c07_cstring_parser", "functions": "lexer::character_string::cstring (nom + str::replace)",
+             "bound": "strings of 0..=5 pieces from {a, quotation mark, ' b', e-acute, '-- x'} (exhaustive, 3906 cases); each quotation mark written doubled in the source"},
+            {"unit": "b_c07_bitstring_literal_parser", "functions": "lexer::bit_string::bit_string_value (bstring / hstring arm) -> hex_to_bools",
+             "bound": "bstrings and hstrings of 0..=3 digits, every digit value (exhaustive, 4384 cases)"},
+            {"unit": "b_c07_format_oid", "functions": "Rasn::format_oid (generator/rasn/utils.rs) -> ObjectIdentifierArc::well_known",
+             "bound": "root arc in 7 written forms (itu-t, itu-t(0), 0, iso, iso(1), 1, joint-iso-itu-t) x second arc {well-known name of that root, name(number), plain number} x fixed tail (exhaustive, 69 cases); checks the emitted arc numbers"},
             {"unit": "b_c07_named_bits", "functions": "ASN1Value::link_with_type (BitStringNamedBits arm) -> bit_string_value_from_named_bits (validator/linking/mod.rs)",
              "bound": "1..=3 named bits with distinct numbers from 0..=5 (any declaration order) x every subset of names listed in the value (exhaustive product)"},
         ],
